@@ -73,7 +73,13 @@ func main() {
 	opsPerCase := r.N(60, 120)
 	prices := []uint64{txkit.MinGasPrice, 2 * txkit.MinGasPrice, 3 * txkit.MinGasPrice}
 
-	r.Parallel(cases, func(c *vk.Case) {
+	concCases := r.N(4000, 120000)
+
+	r.Parallel(cases+concCases, func(c *vk.Case) {
+		if c.Idx >= cases {
+			concCase(r, c) // conc.go: removals between the passes of one running selection
+			return
+		}
 		rng := c.Rng
 		cfg := txcache.ConfigSourceMe{
 			Name: "c26", NumChunks: []uint32{1, 4, 16}[rng.Intn(3)], EvictionEnabled: false,
